@@ -18,6 +18,7 @@ from multiprocessing import Pool
 import numpy as np
 
 from .. import models, pipeline, quant, tlc
+from . import manager
 
 LEVEL = "model_checking"
 VT = 1e-7
@@ -203,12 +204,46 @@ def cells(tier):
     return out
 
 
+def _points_of_calls(beh, op):
+    """points at which the Call op of this behaviour is made (the point installed at that time)"""
+    if op["op"] != "Call":
+        return []
+    cur = None
+    for o in beh:
+        if o["op"] == "Setup" and o["kind"] == "good":
+            cur = o["p"]
+        if o is op:
+            return [cur] if cur else []
+    return []
+
+
 def run(chk, tier, seed):
     res = tlc.run_model("WallSolver.tla", "WallSolver.cfg" if tier == "quick" else "WallSolverK8.cfg", timeout=3000)
     chk.add_model(res, label="exhaustive: all pressure-sign functions on the lattice, all flag patterns, all probe strategies")
     cs = cells(tier)
-    with Pool(min(16, len(cs))) as pool:
-        traces = pool.map(scenario, cs, chunksize=1)
+    # call histories of one manager, generated by TLC from SimManager.tla (history clause of the property)
+    chk.add_model(tlc.run_model("Manager.tla", "Manager.cfg", timeout=1200), label="manager life cycle: results are a function of (point, call); installed data change only by a successful setup")
+    gen = tlc.behaviours("SimManager.tla", "SimManagerQuick.cfg" if tier == "quick" else "SimManager.cfg", simulate=40 if tier == "quick" else 400, depth=16, seed=seed)
+    behs = gen["behaviours"]
+    behs = behs[:: max(1, len(behs) // (4 if tier == "quick" else 32))][: (4 if tier == "quick" else 32)]
+    pairs = sorted({(op["p"], "info") for b in behs for op in b if op["op"] == "Setup" and op["kind"] == "good"}
+                   | {(pt, op["c"]) for b in behs for pt in _points_of_calls(b, op)} )
+    with Pool(16) as pool:
+        a1 = pool.map_async(scenario, cs, chunksize=1)
+        a2 = pool.map_async(manager.execute, behs, chunksize=1)
+        a3 = pool.map_async(manager.fresh, pairs, chunksize=1)
+        traces, hevs, refs = a1.get(), a2.get(), a3.get()
+    htraces = []
+    for i, (b, evs) in enumerate(zip(behs, hevs)):
+        used = {(op["p"], "info") for op in b if op["op"] == "Setup" and op["kind"] == "good"} | {(pt, op["c"]) for op in b for pt in _points_of_calls(b, op)}
+        ref = [{"e": "Ref", "p": p_, "c": c_, "h": h_} for (p_, c_, h_) in refs if (p_, c_) in used]
+        sym = "historyDependent" if any(e.get("out") not in ("ok", "raises", "WallGoPhaseValidationError") for e in evs) else "none"
+        htraces.append({"id": f"history{i}_" + "".join((op.get("p") or op.get("c", "")[:1] or op["m"][:1]) for op in b)[:60], "ev": ref + evs,
+                        "cell": {"kind": "history", "behaviour": b, "symptom": sym}})
+        chk.count("history:" + json.dumps(b, sort_keys=True))
+    vr = tlc.validate("TraceManager.tla", "TraceManager.cfg", htraces)
+    chk.add_validation(vr, htraces, what="manager history")
+    chk.extra.update(manager_histories=len(htraces), fresh_references=len(refs), history_generator_states=gen["generated"])
     for tr in traces:
         chk.count(tr["id"])
     chk.sample(traces[0])
@@ -230,6 +265,16 @@ def run(chk, tier, seed):
 def replay(chk, path):
     with open(path) as f:
         tr = json.load(f)
+    if tr["cell"].get("kind") == "history":
+        b = tr["cell"]["behaviour"]
+        evs = manager.execute(b)
+        pairs = sorted({(op["p"], "info") for op in b if op["op"] == "Setup" and op["kind"] == "good"} | {(pt, op["c"]) for op in b for pt in _points_of_calls(b, op)})
+        ref = [{"e": "Ref", "p": p_, "c": c_, "h": h_} for (p_, c_, h_) in map(manager.fresh, pairs)]
+        for ev in ref + evs:
+            print(json.dumps(ev)[:300])
+        new = {"id": tr["id"], "ev": ref + evs, "cell": tr["cell"]}
+        chk.add_validation(tlc.validate("TraceManager.tla", "TraceManager.cfg", [new]), [new])
+        return chk.finish()
     new = scenario(tr["cell"])
     for ev in new["ev"]:
         print(json.dumps(ev)[:300])
